@@ -236,6 +236,10 @@ pub fn run(ctx: &Ctx) {
         }
         k
     };
+    if ctx.tier == Tier::Thorough {
+        // coverage-guided search for an accepted program whose emitted lines a downstream parser refuses
+        crate::fuzzrun::campaigns(ctx, &["compose"]);
+    }
     let g = crate::grammar::all_terminals();
     let unknown: Vec<&String> = g.difference(&known).collect();
     ctx.extra("grammar_terminals", json!({"in_grammar": g.len(), "unknown_to_enumerator": unknown}));
